@@ -353,7 +353,7 @@ func c14Run(cs *c14Case) *c14Result {
 	var opsSx []string
 	listed := true
 	start := time.Now()
-	var stamps []int64
+	var stamps [][2]int64 // clock before and after every Enforce call so far
 	ttls := map[int]bool{}
 	seenKeys := map[string]bool{}
 	step := 0
@@ -366,19 +366,6 @@ func c14Run(cs *c14Case) *c14Result {
 		if o.kind == "e" {
 			if cs.timed {
 				now = time.Since(start).Microseconds()
-				for _, t0 := range stamps {
-					for d := range ttls {
-						diff := now - t0 - int64(d)
-						if diff < 0 {
-							diff = -diff
-						}
-						if diff < int64(d)/2 {
-							res.dropped = "timing too close to an expiry instant"
-							return res
-						}
-					}
-				}
-				stamps = append(stamps, now)
 			} else {
 				now = int64(step)
 			}
@@ -391,6 +378,23 @@ func c14Run(cs *c14Case) *c14Result {
 			var d bool
 			var err error
 			out = c14Call(func() string { d, err = w.Enforce(vals...); return c14Dec(d, err) })
+			if cs.timed {
+				// the cache read its clock somewhere between `now` and `after`; an item was stored
+				// somewhere between the two stamps of an earlier call.  Keep the case only when
+				// every possible age is clearly (by ttl/3) on one side of every lifetime in use.
+				after := time.Since(start).Microseconds()
+				for _, t0 := range stamps {
+					lo, hi := now-t0[1], after-t0[0]
+					for d := range ttls {
+						m := int64(d) / 3
+						if lo < int64(d)+m && hi > int64(d)-m {
+							res.dropped = "timing too close to an expiry instant"
+							return res
+						}
+					}
+				}
+				stamps = append(stamps, [2]int64{now, after})
+			}
 			if k, ok := c14KeyOf(o.ps); ok {
 				if seenKeys[k] {
 					res.hits++
